@@ -260,7 +260,9 @@ def cases(tier, seed):
     rng = np.random.default_rng(subseed("C10r", seed))
     for i in range(nr):
         ps = gen.rand_spec(rng, RUN_FAMILIES, nmax=10)
-        yield {"kind": "run", "problem": ps, "maxcor": int(rng.integers(1, 8)), "maxls": int(gen.pick(rng, [2, 3, 5, 20])),
+        if i % 9 == 8:
+            ps["n"] = int(rng.integers(25, 61))  # scale: dimensions and memories larger than the bulk of the cases
+        yield {"kind": "run", "problem": ps, "maxcor": int(rng.integers(1, 8)) if i % 9 != 8 else int(rng.integers(11, 26)), "maxls": int(gen.pick(rng, [2, 3, 5, 20])),
                "maxiter": int(rng.integers(8, 40)), "restart_after": int(rng.integers(2, 9)) if i % 3 == 0 else 0,
                "restart_maxcor_drop": int(rng.integers(0, 4)), "reuse_grad_buffer": bool(i % 4 == 1),
                "eps_SY": float(gen.pick(rng, [2.2e-16, 2.2e-16, 1e-3, 1e-2, 0.1]))}
@@ -293,6 +295,11 @@ def run_direct(spec, out):
     rng = np.random.default_rng(spec["seed"])
     n = int(rng.integers(1, 13))
     maxcor = int(rng.integers(1, 11))
+    if spec["seed"] % 7 == 3:
+        # scale: dimensions and memories larger than the bulk of the streams
+        n = int(rng.integers(20, 61))
+        maxcor = int(rng.integers(11, 26))
+        out.count("streams_in_20_to_60_dimensions_with_memory_up_to_25")
     length = int(rng.integers(5, 41))
     eps = float(gen.pick(rng, [2.2e-16, 2.2e-16, 1e-8, 1e-3]))
     stream = candidate_stream(rng, n, length)
